@@ -34,6 +34,20 @@ Theorem C21_silent : forall p cap, bytes_ok p = true -> must_be_silent p cap = t
 Proof. exact reject_silent. Qed.
 Print Assumptions C21_silent.
 
+(* the callers rejectInside / rejectOutside (inside.go): for every packet and every buffer length they emit nothing or
+   exactly one reply, which passes the validator against the WHOLE rejected packet, is within the documented maximum
+   and does not answer a fragment / ICMP error; and their model never fails a bounds check *)
+Theorem C21_callers : forall p buflen ws, bytes_ok p = true ->
+  (reject_inside p buflen = Ok ws -> emitted_ok p buflen ws = true) /\
+  (reject_outside p buflen = Ok ws -> emitted_ok p (outside_cap buflen) ws = true).
+Proof. exact callers_ok. Qed.
+Print Assumptions C21_callers.
+
+Theorem C21_callers_total : forall p buflen, bytes_ok p = true ->
+  (exists ws, reject_inside p buflen = Ok ws) /\ (exists ws, reject_outside p buflen = Ok ws).
+Proof. exact callers_total. Qed.
+Print Assumptions C21_callers_total.
+
 (* ---- what "passes the validator" says, in Prop form ---- *)
 
 Theorem C21_reply_family : forall p out, reply_ok p out = true ->
